@@ -32,6 +32,20 @@ check("C10", "exploration",
   "Trusts sha256; un-length-prefixed concatenation ambiguity needing two coordinated changes is outside 'single-field'. Tx/receipt roots: decided by the independent Merkle recomputation of the C09 audit.",
   "runtime monitoring: differential execution of one write set over forked ledgers + perturbation sensitivity oracle", "DESIGN.md §5 C10")
 
+IX_NOTE = "Trusts model/interchain.go (sequential spec written from the statement), the always-true rule for proofs (C03 covers proofs), the fixture built by real governance transactions. Observation at the public boundary: receipts, BVM queries through the view executor, per-block InterchainMeta."
+check("C02", "exploration",
+  "Generated IBTP histories over 3-6 ordered service pairs (valid/duplicate/future/zero/huge indices, receipts in and out of order, unknown requests, begin-failed destinations, audit on/off, restarts) executed block by block on the real executor+ledger; every IBTP is decided in transaction order by a sequential model and the receipt status, the four counters of every pair after every block, the delivery metadata and the index->tx mapping are compared; blocks holding only rejected IBTPs must leave the interchain and transaction-manager contracts' keys untouched.",
+  IX_NOTE, "runtime monitoring: online reference-model checker over executed block histories", "DESIGN.md §5 C02")
+check("C04", "exploration",
+  "Same histories; GetStatus of every transaction id ever accepted is queried after every block and must equal the model's status; every observed change must be a path of protocol edges not longer than the accepted events for that id in the block; final statuses must never change; receipts that would need a non-edge must be rejected.",
+  IX_NOTE + " Inter-BitXHub notice edges (BEGIN->FAILURE/ROLLBACK by destination-hub notice) are driven by the C03 workload.", "runtime monitoring: per-block status trace checked against the protocol transition table", "DESIGN.md §5 C04")
+check("C06", "exploration",
+  "Same histories with timeouts {0,1,2,3,5,7,2^31,2^62,2^63-1,-1}; TimeoutCounter of every block and chain key must list exactly the requests whose due height H+T is this block and that have no accepted receipt at a height <= due; BEGIN_ROLLBACK exactly from the due block; only rollback/failure receipts afterwards; restarts between H and H+T.",
+  IX_NOTE + " Horizon 25-40 blocks per case. Group timeouts are C05's.", "runtime monitoring: per-block timeout-list oracle from a sequential model", "DESIGN.md §5 C06")
+check("C08", "exploration",
+  "Hostile blocks (1-20 txs) against the real executor in child processes: the whole BVM dispatch surface enumerated by reflection (~570 methods) with well-typed / type-confused / wrong-arity vectors, malformed IBTPs, byte-mutated payloads, structural oddities, bad signatures, proofs rejected by WASM rule doubles (false / trap / fuel burn), serial and parallel proof verification. Oracle: process alive, ExecutedEvent within the watchdog, one receipt per tx in order, height+1. A dead worker is a violation attributed to the block logged before it died.",
+  "Inputs beyond the generators (EVM bytecode, >5 KB strings) are not driven; watchdog 120 s per block (parked executor = wedged, else inconclusive).", "runtime monitoring: crash/wedge/receipt-count oracle over structure-aware and mutational fuzz blocks in child processes", "DESIGN.md §5 C08")
+
 ALL = [f"C{i:02d}" for i in range(1, 21)]
 REASON_PENDING = "check not built yet in this round; see DESIGN.md §5 for the planned monitor (no claim is made until the check runs clean on the unchanged tree)"
 
